@@ -9,6 +9,7 @@ makes the parser panic.  The bytes → tokens layer (`strings.Split` on quotes, 
 is tied to the code by the differential run only (DESIGN §5 C11).
 -/
 import DtailModel.Lemmas.QueryPatch
+import DtailModel.Lemmas.GenQuery
 namespace Dtail.C11
 open Dtail
 
@@ -219,5 +220,34 @@ example :
     ∧ (parseQuery (fun _ => none) (flatC [sel, frm, grp])).isPanic = false
     ∧ ((parseQuery (fun _ => none) (flatC [sel, frm, grp])) matches .ok _) := by
   decide
+
+/-! ### Tie G (panic-aware): the parser as translated from the working tree on this run -/
+
+open Dtail.Go Dtail.Gen.MaprQuery in
+/-- **The query parser of the working tree never panics.**  `NewQuery` — `tokenize`, `tokensConsume…`,
+    `makeSelectConditions`, `makeWhereConditions` / `fill`, `makeSetConditions` / `initSetConditions`, `parseTokens`,
+    `parse` — is translated from internal/mapr on every run with every index and slice expression guarded (where the Go
+    runtime would panic, the translated function returns `Outcome.panic`).  For every query text and every behaviour
+    of `strconv.ParseFloat`, `strconv.Atoi` and `funcs.NewFunctionStack` it returns a query or an error — no guard
+    fails — provided the loops get more fuel than there are tokens (the Go loops have no fuel: the bound only says
+    that they end). -/
+theorem C11_generated_parser_never_panics (ext : Ext) (q : Bytes) (hf : (Gen.MaprQuery.tokenize ext q).length < ext.fuel) :
+    ∃ r, Gen.MaprQuery.NewQuery ext q = Outcome.ok r :=
+  GenQuery.NewQuery_ok ext q hf
+
+open Dtail.Go Dtail.Gen.MaprQuery in
+/-- the parts: none of the translated clause parsers panics, on any token list -/
+theorem C11_generated_clause_parsers_never_panic (ext : Ext) (ts : List Gen.MaprQuery.token) :
+    GenQuery.ConsumeOk ts (Gen.MaprQuery.tokensConsume ext ts) ∧
+    GenQuery.IsOk (Gen.MaprQuery.makeSelectConditions ext ts) ∧
+    (ts.length < ext.fuel → GenQuery.IsOk (Gen.MaprQuery.makeWhereConditions ext ts)) ∧
+    (ts.length < ext.fuel → GenQuery.IsOk (Gen.MaprQuery.makeSetConditions ext ts)) ∧
+    (∀ qq, ts.length < ext.fuel → GenQuery.IsOk (Gen.MaprQuery.Query.parseTokens ext qq ts)) :=
+  ⟨GenQuery.tokensConsume_ok ext ts, GenQuery.makeSelectConditions_ok ext ts, GenQuery.makeWhereConditions_ok ext ts,
+   GenQuery.makeSetConditions_ok ext ts, fun qq h => GenQuery.parseTokens_ok ext qq ts h⟩
+
+open Dtail.Go Dtail.Gen.MaprQuery in
+/-- the fuel hypothesis is satisfiable, and the lone back-quote (the token that used to crash the server) is one token -/
+example : (Gen.MaprQuery.tokenize { parseFloat := fun _ => (0, none), fuel := 10 } (b!"select `count(x)` from T where ` > 1")).length < 10 := by decide
 
 end Dtail.C11
